@@ -390,6 +390,97 @@ def missing_key(ctx, facts, unit, mf, cfg):
         ctx.ok("K3.missing-key-site", "the key-wise comparison handles a missing key explicitly (%s)" % cfg)
 
 
+def container_cases(ctx, facts, mf, cfg):
+    """K3.elementwise — the container cases of the membership equality, read on its decision cases with both kinds fixed:
+    two arrays (two objects) are the same element iff they have the *same number* of members and *every* pair of
+    corresponding members is.  Read: the comparison of the two lengths (equality only; `<=` admits a prefix), what is
+    returned when the lengths differ (false), and the consumer of the pairwise walk — `all` over un-negated recursion
+    (or `!any` over negated recursion); `any`, a negated predicate under `all`, or a `zip` walk with no length test
+    (zip stops at the shorter side) are read and wrong.  Walks spelled as loops or in helpers are UNDECIDED here."""
+    from . import optnorm, pathsum
+    VALUE_ = "serde_json::Value"
+
+    def is_len_of(txt, argn):
+        return "::len(" in txt and ("(arg %d)" % argn) in txt and ("(arg %d)" % (3 - argn)) not in txt
+
+    for kind in ("Array", "Object"):
+        key0 = "membership equality %s,%s (%s)" % (kind, kind, cfg)
+        cases = optnorm.decision_cases(facts, mf, known=lambda e, adt, _k=kind: _k if (adt == VALUE_ and strip_refs(e) in (("arg", 1), ("arg", 2))) else None)
+        if cases is None:
+            ctx.unread("K3.elementwise", key0, "the membership equality has loops or too many paths to summarise", where=mf.where(), fn=mf.key)
+            continue
+        bad, good, unread = [], 0, []
+        for conds, v, p in cases:
+            len_state = None      # True: lengths known equal on this case; False: known different
+            for k, val in conds.items():
+                if k[0] == "cmp" and isinstance(val, bool):
+                    a_, b_ = str(k[2]), str(k[3])
+                    if (is_len_of(a_, 1) and is_len_of(b_, 2)) or (is_len_of(a_, 2) and is_len_of(b_, 1)):
+                        if k[1] == "Eq":
+                            len_state = val
+                        else:
+                            bad.append("the two lengths are compared with %s (only equality decides: a shorter %s is not the same element as a longer one that starts with it)" % (k[1] if val else "not " + k[1], kind.lower()))
+            vv = strip_refs(v)
+            neg = False
+            while vv[0] == "unop" and vv[1] == "Not":
+                neg, vv = not neg, strip_refs(vv[2])
+            if len_state is False:
+                if not (vv[0] == "const" and const_value(vv[1]) is (True if neg else False)):
+                    bad.append("with different lengths the result is %s (expected false)" % show_expr(strip_refs(v))[:60])
+                continue
+            if vv[0] == "const":
+                continue
+            if vv[0] == "binop" and vv[1] in ("Eq", "Ne"):
+                ca, cb = pathsum.canon(strip_refs(vv[2])), pathsum.canon(strip_refs(vv[3]))
+                if (is_len_of(ca, 1) and is_len_of(cb, 2)) or (is_len_of(ca, 2) and is_len_of(cb, 1)):
+                    continue          # the length comparison itself returned as the result (empty walk): nothing to read
+            m_ = re.search(r"(Iterator::|Iterator>::)(all|any)$", vv[1]["path"]) if (vv[0] == "call" and vv[1]) else None
+            if not m_ or len(vv[2]) != 2:
+                unread.append(show_expr(strip_refs(v))[:70])
+                continue
+            consumer = m_.group(2)
+            src = pathsum.canon(strip_refs(vv[2][0]))
+            zipped = "::zip(" in src
+            cc = optnorm._closure_cases(facts, vv[2][1], [("elem",)], 0)
+            if cc is None:
+                unread.append("predicate of %s not readable" % consumer)
+                continue
+            pol = set()
+            other = []
+            for c2, v2 in cc:
+                x = strip_refs(v2)
+                n2 = False
+                while x[0] == "unop" and x[1] == "Not":
+                    n2, x = not n2, strip_refs(x[2])
+                if x[0] == "call" and x[1] and x[1].get("key") == mf.key:
+                    pol.add(not n2)
+                elif x[0] == "const" and isinstance(const_value(x[1]), bool):
+                    continue          # a missing key etc.: K3.missing-key
+                else:
+                    other.append(show_expr(x)[:50])
+            if other or len(pol) != 1:
+                unread.append("predicate of %s yields %s" % (consumer, other[:1] or sorted(pol)))
+                continue
+            positive = list(pol)[0]
+            ok_walk = (consumer == "all" and positive and not neg) or (consumer == "any" and not positive and neg)
+            if not ok_walk:
+                bad.append("the pairwise walk is %s%s(|pair| %ssame(pair)): two %ss are the same element only if *every* pair of members is" % ("!" if neg else "", consumer, "" if positive else "!", kind.lower()))
+                continue
+            if kind == "Object" and len_state is not True:
+                bad.append("the entries of one object are walked and the numbers of entries are not known to be equal on this path: an object would be the same element as any object that has its keys among others")
+                continue
+            if zipped and len_state is not True:
+                bad.append("the members are walked with zip and the lengths are not known to be equal on this path: zip stops at the shorter side, so a prefix is the same element as the whole")
+                continue
+            good += 1
+        for b_ in sorted(set(bad)):
+            ctx.fail("K3.elementwise", key0 + "|" + b_[:40], b_, where=mf.where(), fn=mf.key)
+        if not bad and unread:
+            ctx.unread("K3.elementwise", key0, "the %s case is not read as a length test and a pairwise all(..): %s" % (kind, unread[:2]), where=mf.where(), fn=mf.key)
+        elif not bad:
+            ctx.check(good >= 1, "K3.elementwise", key0, "no pairwise walk found in the %s case" % kind, where=mf.where(), fn=mf.key, nontrivial=True, sample={"kind": kind, "walks": good})
+
+
 def run(ctx):
     ctx.explanation = __doc__
     ctx.rule = "instances = merge: pass/shape facts + 6 kinds; in: 6 haystack kinds × needle kinds + unit taint; membership equality: 36 kind pairs; non-trivial = specialisation / def-use"
@@ -549,6 +640,7 @@ def run(ctx):
                           sample={"pair": "%s,%s" % (a, b), "outcome": o.kind} if a == b else None)
             # Object×Object is key-wise (Map::get), Array×Array element-wise with equal lengths
             mu2 = Unit(roles, mf.key)
+            container_cases(ctx, facts, mf, cfg)
             missing_key(ctx, facts, mu2, mf, cfg)
             paths = [callee_path(s.term) for s in mu2.calls()]
             ctx.check(any(p.startswith("serde_json::Map::<") and p.endswith("::get") for p in paths) and sum(1 for p in paths if p.endswith("::len")) >= 4, "K3.structure", "objects compared key-wise via Map::get, lengths compared (%s)" % cfg, "membership equality calls: %s" % sorted(set(p.rsplit("::", 1)[1] for p in paths)), where=mf.where(), fn=mf.key)
